@@ -80,7 +80,7 @@ def run(tier, seed):
     res.evaluations = len(recs) + len(wrecs)
     res.samples = [{k: recs[0][k] for k in ("cls", "defects", "names", "ctor_exc", "solve_exc", "solved")}]
     res.exhaustive = True
-    res.rule = ("every (class, defect) and every (class, pair of compatible defects) of Validation.tla (23 defect kinds x 12 classes, "
+    res.rule = ("every (class, defect) and every (class, pair of compatible defects) of Validation.tla (33 defect kinds x 12 classes, "
                 "TLC-enumerated), single defects under three node-naming schemes; converse on well-formed TLC-universe inputs for all "
                 "classes, edge and node mode, three naming schemes")
     return res.finish(known, require_classes=["single_defect_cases", "double_defect_cases", "well_formed_inputs"])
